@@ -384,11 +384,50 @@ func (e *Env) assumeLemmaQuantified(pkg *types.Package, name string) {
 // occur in the specification proper (requires / ensures / modifies / emitted records) are never
 // rebound.
 func (w *World) verifyItem(it *Item, timeoutMs int) *FuncResult {
-	res := w.verifyItemOnce(it, timeoutMs, nil)
+	// parameters / named results renamed since the contract was written keep their position
+	base := map[string]string{}
+	var note []string
+	if it.Kind == "func" {
+		if fn := w.findFunc(it.Pkg, it.Name); fn != nil {
+			if rec := w.recordedParams[it.Pkg+"::"+it.Name]; rec != nil && len(rec["params"]) == len(fn.Params) && len(rec["results"]) == fn.Signature.Results().Len() {
+				cur := map[string]bool{}
+				for _, p := range fn.Params {
+					cur[p.Name()] = true
+				}
+				rs := fn.Signature.Results()
+				for i := 0; i < rs.Len(); i++ {
+					cur[rs.At(i).Name()] = true
+				}
+				for k, n := range rec["params"] {
+					if n != "" && n != "_" && !cur[n] && itemMentions(it, n) {
+						base[n] = fmt.Sprintf("#p%d", k)
+						note = append(note, n+" -> parameter "+fmt.Sprint(k))
+					}
+				}
+				for k, n := range rec["results"] {
+					if n != "" && n != "_" && !cur[n] && itemMentions(it, n) {
+						if _, dup := base[n]; !dup {
+							base[n] = fmt.Sprintf("#r%d", k)
+							note = append(note, n+" -> result "+fmt.Sprint(k))
+						}
+					}
+				}
+			}
+		}
+	}
+	var al map[string]string
+	if len(base) > 0 {
+		al = base
+	}
+	res := w.verifyItemOnce(it, timeoutMs, al)
+	if len(note) > 0 {
+		sort.Strings(note)
+		res.Loops = append(res.Loops, "contract names bound by position to renamed parameters / results: "+strings.Join(note, ", "))
+	}
 	if it.Kind != "func" || res.Error == "" {
 		return res
 	}
-	if r := w.rebindSearch(it, timeoutMs, map[string]string{}, res.Error, 0); r != nil {
+	if r := w.rebindSearch(it, timeoutMs, base, res.Error, 0); r != nil {
 		return r
 	}
 	return res
